@@ -150,6 +150,20 @@ theorem makeKey_refuses_iff (P : Prims) (hP : P.WF) (ntr pw : Bytes) (isSend : B
     makeKey P ntr pw isSend = .err ↔ ntr.length ≠ 24 := by
   exact makeKey_err_iff P hP ntr pw isSend
 
+/-- "Wrong-sized master keys and NT responses are refused with an error": the two functions that HAVE a size contract
+    and an error result are `GetAsymmetricStartKey` (master key) and `MakeKey` (NT response).  The other two
+    functions that take an NT response hash whatever they are given, as RFC 2759 §8.7 / RFC 3079 §3.4 write them:
+    `GenerateAuthenticatorResponse` errs only with the UTF-16 conversion (never, for this encoder) and
+    `GetMasterKey` has no error result at all.  Stated here so that the reading of the clause (DESIGN §5c) is a
+    theorem about the model and not a silence of the oracle. -/
+theorem nt_response_size_is_checked_by_makeKey_only (P : Prims) (hP : P.WF) (auth peer ntr user pw phh : Bytes) (isSend : Bool) :
+    (makeKey P ntr pw isSend = .err ↔ ntr.length ≠ 24) ∧
+    (∃ r, generateAuthenticatorResponse P auth peer ntr user pw = .ok r) ∧
+    (getMasterKey P phh ntr).length = 16 := by
+  refine ⟨makeKey_err_iff P hP ntr pw isSend, ?_, getMasterKey_length P hP phh ntr⟩
+  obtain ⟨d, h, _⟩ := generateAuthenticatorResponse_shape P hP auth peer ntr user pw
+  exact ⟨_, h⟩
+
 /-! ### Non-vacuity: the hypotheses are satisfiable and the statements speak about real values -/
 
 example : Prims.concrete.WF := Prims.concrete_wf
